@@ -1,4 +1,5 @@
 //! vp_sig — signal-level checks: C04, C05, C08, C11 (std half), C17, C18, C19, C20.
 pub mod c04;
 pub mod c05;
+pub mod c08;
 pub mod tree;
